@@ -77,3 +77,14 @@ def snapshot(verif, report):
         os.makedirs(os.path.dirname(expected_path(verif, m)), exist_ok=True)
         with open(expected_path(verif, m), "w") as f:
             json.dump(rep["shapes"], f, indent=1, sort_keys=True)
+
+
+def typed_items(repo, module):
+    """the typed items of one translator module for the tree at `repo`, computed in-process and WITHOUT touching coq/gen
+    (harnesses use this for facts they need at run time: the files under coq/gen may meanwhile have been regenerated for another
+    tree by a concurrent check). Returns {name: coq term text}; {} when the translator fails."""
+    try:
+        mod = importlib.import_module("tools.pygen." + module)
+        return {it.name: it.coq_term for it in mod.translate(repo) if it.kind == "typed"}
+    except Exception:
+        return {}
